@@ -14,6 +14,9 @@ package grpc
 //	     (pbkind 0 none, 1 one value, 2 two values) and then answers OK
 //	obs [final code, nretries, delay_1..delay_n, bits(tokens after the RPC)]
 //	     delay_i = virtual ns between the arrival of attempt i and attempt i+1
+//	op  [2, bits(MaxTokens), bits(TokenRatio)]  the (manual) resolver delivers a new service
+//	     config - same retry policy, new retryThrottling - which the channel applies through
+//	     applyServiceConfigAndBalancer                      obs [bits(tokens afterwards)]
 //
 // Every RPC runs under a 100-day context deadline (so that a multi-century backoff ends the
 // RPC with DEADLINE_EXCEEDED instead of saturating the bubble's clock); the model has the same rule.
@@ -32,6 +35,8 @@ import (
 	"google.golang.org/grpc/codes"
 	"google.golang.org/grpc/credentials/insecure"
 	"google.golang.org/grpc/metadata"
+	"google.golang.org/grpc/resolver"
+	"google.golang.org/grpc/resolver/manual"
 	"google.golang.org/grpc/status"
 	"google.golang.org/grpc/test/bufconn"
 	"google.golang.org/protobuf/types/known/emptypb"
@@ -116,19 +121,24 @@ func vRetryThrottleRun(cfg []int64, ops [][]int64) (obs [][]int64, nt bool, tags
 	tags = map[string]bool{}
 	mult := math.Float64frombits(uint64(cfg[3]))
 	maxTok := math.Float64frombits(uint64(cfg[4]))
-	ratio := math.Float64frombits(uint64(cfg[5]))
-	sc := fmt.Sprintf(`{"methodConfig":[{"name":[{}],"retryPolicy":{"maxAttempts":%d,"initialBackoff":%q,"maxBackoff":%q,"backoffMultiplier":%s,"retryableStatusCodes":["UNAVAILABLE","ABORTED"]}}],"retryThrottling":{"maxTokens":%s,"tokenRatio":%s}}`,
-		cfg[0], vRetryThrottleDur(cfg[1]), vRetryThrottleDur(cfg[2]),
-		strconv.FormatFloat(mult, 'g', -1, 64), strconv.FormatFloat(maxTok, 'g', -1, 64), strconv.FormatFloat(ratio, 'g', -1, 64))
+	mkSC := func(mt, tr float64) string {
+		return fmt.Sprintf(`{"methodConfig":[{"name":[{}],"retryPolicy":{"maxAttempts":%d,"initialBackoff":%q,"maxBackoff":%q,"backoffMultiplier":%s,"retryableStatusCodes":["UNAVAILABLE","ABORTED"]}}],"retryThrottling":{"maxTokens":%s,"tokenRatio":%s}}`,
+			cfg[0], vRetryThrottleDur(cfg[1]), vRetryThrottleDur(cfg[2]),
+			strconv.FormatFloat(mult, 'g', -1, 64), strconv.FormatFloat(mt, 'g', -1, 64), strconv.FormatFloat(tr, 'g', -1, 64))
+	}
+	sc := mkSC(maxTok, math.Float64frombits(uint64(cfg[5])))
+	mr := manual.NewBuilderWithScheme("verifrt")
+	addrs := []resolver.Address{{Addr: "verif"}}
+	mr.InitialState(resolver.State{Addresses: addrs, ServiceConfig: parseServiceConfig(sc, 64)})
 
 	srvState := &vRetryThrottleSrv{}
 	lis := bufconn.Listen(1 << 16)
 	srv := NewServer(UnknownServiceHandler(srvState.handle))
 	go srv.Serve(lis)
-	cc, err := NewClient("passthrough:///verif",
+	cc, err := NewClient("verifrt:///verif",
+		WithResolvers(mr),
 		WithTransportCredentials(insecure.NewCredentials()),
 		WithContextDialer(func(ctx context.Context, _ string) (net.Conn, error) { return lis.DialContext(ctx) }),
-		WithDefaultServiceConfig(sc),
 		WithMaxCallAttempts(64),
 		WithIdleTimeout(0))
 	if err != nil {
@@ -140,7 +150,28 @@ func vRetryThrottleRun(cfg []int64, ops [][]int64) (obs [][]int64, nt bool, tags
 		synctest.Wait()
 	}()
 
+	cc.Connect() // builds the resolver, which applies the initial service config
+	synctest.Wait()
+	readTok := func() float64 {
+		rt, _ := cc.retryThrottler.Load().(*retryThrottler)
+		if rt == nil {
+			return math.NaN()
+		}
+		rt.mu.Lock()
+		defer rt.mu.Unlock()
+		return rt.tokens
+	}
+
 	for _, op := range ops {
+		if len(op) == 3 && op[0] == 2 {
+			mt, tr := math.Float64frombits(uint64(op[1])), math.Float64frombits(uint64(op[2]))
+			mr.UpdateState(resolver.State{Addresses: addrs, ServiceConfig: parseServiceConfig(mkSC(mt, tr), 64)})
+			synctest.Wait()
+			maxTok = mt
+			tags["sc-update"] = true
+			obs = append(obs, []int64{int64(math.Float64bits(readTok()))})
+			continue
+		}
 		script, ok := vRetryThrottleParse(op)
 		if !ok {
 			obs = append(obs, []int64{})
@@ -162,13 +193,7 @@ func vRetryThrottleRun(cfg []int64, ops [][]int64) (obs [][]int64, nt bool, tags
 		for i := 1; i < len(ts); i++ {
 			o = append(o, int64(ts[i].Sub(ts[i-1])))
 		}
-		rt, _ := cc.retryThrottler.Load().(*retryThrottler)
-		var tok float64
-		if rt != nil {
-			rt.mu.Lock()
-			tok = rt.tokens
-			rt.mu.Unlock()
-		}
+		tok := readTok()
 		o = append(o, int64(math.Float64bits(tok)))
 		obs = append(obs, o)
 		if len(ts) > 1 {
@@ -196,7 +221,7 @@ func vRetryThrottleExec(cfg []int64, ops [][]int64) ([][]int64, bool, []string) 
 		obs, nt, tg = vRetryThrottleRun(cfg, ops)
 	})
 	var tags []string
-	for _, k := range []string{"retried", "refused", "throttled-zone"} {
+	for _, k := range []string{"retried", "refused", "throttled-zone", "sc-update"} {
 		if tg[k] {
 			tags = append(tags, k)
 		}
@@ -285,6 +310,18 @@ func vRetryThrottleGen(r *vRand, tier string, idx int) ([]int64, [][]int64) {
 		ops = append(ops, vCat([]int64{1, 5, 14, 0, 14, 1}, vBytes([]byte("7")), []int64{14, 0, 10, 0, 14, 0}))
 		return cfg, ops
 	}
+	if idx == 6 {
+		// service-config updates in the middle of activity: the bucket is lowered from 100 to 4
+		// while it holds ~100 tokens, then raised again after failures; each new bucket must
+		// start inside its own [0, maxTokens] and refuse retries at or below max/2
+		cfg := []int64{5, 1000000, 50000000, vRetryThrottleF(2), vRetryThrottleF(100), vRetryThrottleF(0.5)}
+		f1 := []int64{1, 1, 14, 0}
+		f5 := []int64{1, 5, 14, 0, 14, 0, 14, 0, 14, 0, 14, 0}
+		ops := [][]int64{f1, {1, 0}, {2, vRetryThrottleF(4), vRetryThrottleF(0.5)}, f5, f5, {1, 0},
+			{2, vRetryThrottleF(10), vRetryThrottleF(1)}, f5, f5, f5, {2, vRetryThrottleF(10), vRetryThrottleF(1)}, f1,
+			{2, vRetryThrottleF(1000), vRetryThrottleF(0.1)}, f5, {2, vRetryThrottleF(0.5), vRetryThrottleF(2)}, f1, {1, 0}}
+		return cfg, ops
+	}
 	maxAttempts := r.PickI64(2, 3, 4, 5, 5, 8, 12)
 	initB := r.PickI64(1, 1000, 1000000, 100000000, 1+r.I64n(1000000000))
 	maxB := r.PickI64(initB, 2*initB, 1+r.I64n(100000000000), 1000000000, 1000000000000000)
@@ -301,6 +338,12 @@ func vRetryThrottleGen(r *vRand, tier string, idx int) ([]int64, [][]int64) {
 	var ops [][]int64
 	n := 15 + r.Intn(25)
 	for i := 0; i < n; i++ {
+		if r.Chance(10) {
+			mt := []float64{10, 1, 2, 3, 1000, 0.5, 5, 7.5, 100, 4}[r.Intn(10)]
+			tr := []float64{0.1, 0.5, 1, 0.001, 0.3, 2, 0.25}[r.Intn(7)]
+			ops = append(ops, []int64{2, vRetryThrottleF(mt), vRetryThrottleF(tr)})
+			continue
+		}
 		var nf int64
 		switch r.Intn(4) {
 		case 0:
